@@ -167,6 +167,66 @@ pub mod runner {
         classify(r, out)
     }
 
+    /// One compiled function: path ("main", "main/0/1" = nested function 1 of nested function 0),
+    /// arity, number of registers, bytecode words.
+    pub type CodeDump = Vec<(String, u8, u8, Vec<u32>)>;
+
+    /// Compile and run `source` the way `aelys run <file>` does (driver/src/api/file.rs
+    /// run_file_full, for a program without imports): the WHOLE-PROGRAM optimizer
+    /// (Optimizer::new), not the session-unit optimizer the REPL entry point uses.
+    /// Also returns the bytecode of every compiled function.
+    #[cfg(vbxq_aelys_lang_verif)]
+    pub fn run_program_script(source: &str, opt: u32, gc: (u8, u64), budget: u64, config: Option<VmConfig>) -> (Outcome, CodeDump) {
+        use aelys_runtime::verif;
+        use aelys_common::error::{CompileError, CompileErrorKind};
+        let src_text = source.to_string();
+        verif::sink_install();
+        verif::gc_mode_set(gc.0, gc.1);
+        verif::budget_set(budget);
+        let code = std::cell::RefCell::new(Vec::new());
+        let code_ref = &code;
+        let r = crate::guarded(std::panic::AssertUnwindSafe(move || {
+            use aelys_frontend::lexer::Lexer;
+            use aelys_frontend::parser::Parser;
+            let src = aelys_syntax::Source::new("<verif>", &src_text);
+            let tokens = Lexer::with_source(src.clone()).scan()?;
+            let stmts = Parser::new(tokens, src.clone()).parse()?;
+            let mut vm = VM::with_config_and_args(src.clone(), config.unwrap_or_default(), Vec::new()).map_err(AelysError::Runtime)?;
+            let mut known: std::collections::HashSet<String> = vm.repl_known_globals().iter().cloned().collect();
+            for b in ["alloc", "free", "load", "store", "type"] { known.insert(b.to_string()); }
+            let aliases: std::collections::HashSet<String> = vm.repl_module_aliases().iter().cloned().collect();
+            let inferred = aelys_sema::TypeInference::infer_program_full(stmts, src.clone(), aliases.clone(), known)
+                .map_err(|errors| {
+                    let (msg, span) = errors.first().map(|e| (format!("{}", e), e.span)).unwrap_or(("Unknown type error".into(), aelys_syntax::Span::dummy()));
+                    AelysError::Compile(CompileError::new(CompileErrorKind::TypeInferenceError(msg), span, src.clone()))
+                })?;
+            let mut optimizer = aelys_opt::Optimizer::new(opt_level(opt));
+            let typed = optimizer.optimize(inferred.program);
+            let compiler = aelys_backend::Compiler::with_modules(
+                None, src.clone(), aliases,
+                vm.repl_known_globals().iter().cloned().collect(),
+                vm.repl_known_native_globals().iter().cloned().collect(),
+                vm.repl_symbol_origins().iter().map(|(k, v)| (k.clone(), v.clone())).collect(),
+            );
+            let (mut function, mut heap, _globals) = compiler.compile_typed(&typed)?;
+            fn walk(f: &aelys_bytecode::Function, path: String, out: &mut CodeDump) {
+                out.push((path.clone(), f.arity, f.num_registers, f.bytecode.as_slice().to_vec()));
+                for (k, n) in f.nested_functions.iter().enumerate() { walk(n, format!("{}/{}", path, k), out); }
+            }
+            walk(&function, "main".into(), &mut code_ref.borrow_mut());
+            let remap = vm.merge_heap(&mut heap).map_err(AelysError::Runtime)?;
+            function.remap_constants(&remap);
+            let func_ref = vm.alloc_function(function).map_err(AelysError::Runtime)?;
+            let v = vm.execute(func_ref)?;
+            let s = vm.value_to_string(v);
+            Ok((v, s))
+        }));
+        let out = verif::sink_take();
+        verif::budget_set(u64::MAX);
+        verif::gc_mode_set(0, 0);
+        (classify(r, out), code.into_inner())
+    }
+
     /// Run one input on an existing VM (REPL session).
     #[cfg(vbxq_aelys_lang_verif)]
     pub fn run_on_vm(vm: &mut VM, source: &str, opt: u32, budget: u64) -> Outcome {
